@@ -104,7 +104,8 @@ func setupWalk(sc walkScen) (env *walkEnv, fatal string) {
 	env = &walkEnv{}
 	mu, log, states := &env.mu, &env.log, &env.states
 	cl := memcluster.NewCluster(sc.ver, "10.0.0.1")
-	nreq := 0
+	nreq := 0 // QUERY/EXECUTE requests received
+	idx := 0  // script entries (fetch attempts) consumed
 	var first string
 	cols := []memcluster.Col{{Name: "v", Type: memcluster.TInt}}
 	handle := func(req *memcluster.Request) {
@@ -112,18 +113,29 @@ func setupWalk(sc walkScen) (env *walkEnv, fatal string) {
 		case memcluster.OpPrepare:
 			mu.Lock()
 			*log = append(*log, "P")
+			// tier psess: the entry of the fetch attempt this PREPARE belongs to may say that it fails
+			failCode := -1
+			if idx < len(sc.script) && sc.script[idx].fail == "p" {
+				failCode = sc.script[idx].code
+				idx++
+			}
 			mu.Unlock()
+			if failCode >= 0 {
+				req.Conn.Reply(req.Stream, memcluster.OpError, memcluster.ErrorBody(int32(failCode), "scripted prepare failure", nil))
+				return
+			}
 			req.Conn.Reply(req.Stream, memcluster.OpResult, memcluster.PreparedBody(sc.ver, preparedID,
 				[]memcluster.Col{{Name: "id", Type: memcluster.TInt}}, []int{0}, cols))
 		case memcluster.OpQuery, memcluster.OpExecute:
 			skip := req.QFlags&0x02 != 0
 			ident := fmt.Sprintf("%q %x %v c%d s%d f%x e%v", req.Stmt, req.PreparedID, req.Values, req.Consistency, req.Serial, req.QFlags&^0x08, req.ParseErr)
 			mu.Lock()
-			k := nreq
-			nreq++
-			if k == 0 {
+			k := idx
+			idx++
+			if nreq == 0 {
 				first = ident
 			}
+			nreq++
 			same := "="
 			if ident != first {
 				same = "!"
@@ -158,7 +170,7 @@ func setupWalk(sc walkScen) (env *walkEnv, fatal string) {
 					rows[i] = [][]byte{{byte(v >> 24), byte(v >> 16), byte(v >> 8), byte(v)}}
 				}
 				req.Conn.Reply(req.Stream, memcluster.OpResult, memcluster.RowsBody(cols, rows, r.state, skip))
-			case "s":
+			case "s", "p": // ("p": an entry no PREPARE consumed — not generated)
 				var extra []byte
 				switch r.code {
 				case memcluster.ErrUnavailable:
